@@ -33,6 +33,10 @@ Literals == <<"\"s\"", "'c'", "L\"s\"", "L'c'", "\"@\"">>
 Puncts   == <<"[", "]", "(", ")", "{", "}", ".", "->", "++", "--", "&", "*", "+", "-", "~", "!", "/", "%",
               "<<", ">>", "<", ">", "<=", ">=", "==", "!=", "^", "|", "&&", "||", "?", ":", ";", "...",
               "=", "*=", "/=", "%=", "+=", "-=", "<<=", ">>=", "&=", "^=", "|=", ",", "#", "##">>
+(* (not in the alphabet: the backslash, Lexer.tla's category "other".  No program holds one outside a literal
+   after preprocessing, and a printer cannot keep one that ends up last on a line of its output apart from the
+   line end (phase 2 deletes the pair when the text is read back; gcc -E has the same property).  Its
+   stringization is C09's family F14.) *)
 Sigma    == Idents \o Numbers \o Literals \o Puncts
 SigmaSet == {Sigma[i] : i \in DOMAIN Sigma}
 (* triples are checked over the spellings that can take part in a 3-token fusion *)
